@@ -1,6 +1,7 @@
 package main
 
 import (
+	"go/types"
 	"fmt"
 	"go/ast"
 	"go/token"
@@ -137,7 +138,7 @@ func runC10(c *Ctx) {
 	// (a) memory
 	mk := c.Func("kv/memory", "MemoryKV", "ListKeys")
 	kinds := map[string]string{"KeyComposite_SIMPLE": ".simple.Load()", "KeyComposite_PREFIX": ".children.Len()", "KeyComposite_LEASE": ".lease.Load()"}
-	checkAppends := func(fn *Fn, backend string, guardOK func(g *Fn, kind string, fs *FactSet) bool, prefixOK func(g *Fn, fs *FactSet) bool) {
+	checkAppends := func(fn *Fn, backend string, guardOK func(g *Fn, kind string, fs *FactSet, cn func(ast.Expr) string) bool, prefixOK func(g *Fn, fs *FactSet) bool) {
 		seen := map[string]int{}
 		for _, call := range fn.Calls(true, func(call *ast.CallExpr) bool {
 			id, ok := call.Fun.(*ast.Ident)
@@ -172,18 +173,43 @@ func runC10(c *Ctx) {
 				return true
 			})
 			if kind == "" {
+				// table-driven: the kind is a field of the element of a loop over a
+				// package-level table; the site stands for one emission per row, each judged
+				// with the constants of that row
+				var typeVal ast.Expr
+				ast.Inspect(call, func(n ast.Node) bool {
+					if kv, ok := n.(*ast.KeyValueExpr); ok {
+						if id, ok := kv.Key.(*ast.Ident); ok && id.Name == "Type" {
+							typeVal = kv.Value
+						}
+					}
+					return true
+				})
+				rows, rowVar := tableRowsOf(c, g, typeVal)
+				for _, row := range rows {
+					cn := func(e ast.Expr) string { return rowConst(g, e, rowVar, row) }
+					k := cn(typeVal)
+					if k == "" {
+						continue
+					}
+					seen[k]++
+					fs := g.FactsAt(call)
+					c.Ob("kind-pairing", fmt.Sprintf("%s.ListKeys#%s-guarded-by-its-datum", backend, k), call.Pos(), guardOK(g, k, fs, cn), "an entry of this kind is emitted only when the key holds data of that kind")
+					c.Ob("kind-pairing", fmt.Sprintf("%s.ListKeys#%s-after-prefix-filter", backend, k), call.Pos(), prefixOK(g, fs), "entries are emitted only for keys that start with the requested prefix")
+				}
 				continue
 			}
 			seen[kind]++
 			fs := g.FactsAt(call)
-			c.Ob("kind-pairing", fmt.Sprintf("%s.ListKeys#%s-guarded-by-its-datum", backend, kind), call.Pos(), guardOK(g, kind, fs), "an entry of this kind is emitted only when the key holds data of that kind")
+			plain := func(e ast.Expr) string { return constName(g, e) }
+			c.Ob("kind-pairing", fmt.Sprintf("%s.ListKeys#%s-guarded-by-its-datum", backend, kind), call.Pos(), guardOK(g, kind, fs, plain), "an entry of this kind is emitted only when the key holds data of that kind")
 			c.Ob("kind-pairing", fmt.Sprintf("%s.ListKeys#%s-after-prefix-filter", backend, kind), call.Pos(), prefixOK(g, fs), "entries are emitted only for keys that start with the requested prefix")
 		}
 		for k := range kinds {
 			c.Ob("kind-pairing", fmt.Sprintf("%s.ListKeys#one-append-for-%s", backend, k), fn.Decl.Pos(), seen[k] == 1, fmt.Sprintf("exactly one emission site per kind (found %d)", seen[k]))
 		}
 	}
-	checkAppends(mk, "memory", func(g *Fn, kind string, fs *FactSet) bool {
+	checkAppends(mk, "memory", func(g *Fn, kind string, fs *FactSet, _ func(ast.Expr) string) bool {
 		want := kinds[kind]
 		return fs.Cmp(func(e, tag ast.Expr, truth bool, fa *Fact) bool {
 			be, ok := e.(*ast.BinaryExpr)
@@ -204,15 +230,18 @@ func runC10(c *Ctx) {
 	})
 	sq := c.Func("kv/sqlite3", "SqliteKV", "ListKeys")
 	flags := map[string]string{"KeyComposite_SIMPLE": "SimpleFlag", "KeyComposite_PREFIX": "PrefixFlag", "KeyComposite_LEASE": "LeaseFlag"}
-	checkAppends(sq, "sqlite", func(g *Fn, kind string, fs *FactSet) bool {
+	checkAppends(sq, "sqlite", func(g *Fn, kind string, fs *FactSet, cn func(ast.Expr) string) bool {
 		return fs.Cmp(func(e, tag ast.Expr, truth bool, fa *Fact) bool {
-			be, ok := e.(*ast.BinaryExpr)
-			if !ok || !truth || be.Op != token.NEQ {
+			be, ok := ast.Unparen(e).(*ast.BinaryExpr)
+			if !ok || tag != nil || !(be.Op == token.NEQ && truth || be.Op == token.EQL && !truth) {
 				return false
 			}
 			and, ok := ast.Unparen(be.X).(*ast.BinaryExpr)
 			v, _ := g.ConstVal(be.Y)
-			return ok && and.Op == token.AND && v == "0" && constName(g, and.Y) == flags[kind]
+			if !ok || and.Op != token.AND || v != "0" {
+				return false
+			}
+			return cn(and.Y) == flags[kind] || cn(and.X) == flags[kind]
 		})
 	}, func(g *Fn, fs *FactSet) bool {
 		return fs.Has(func(fa *Fact) bool {
@@ -365,4 +394,75 @@ func runC10(c *Ctx) {
 		}
 	}
 	c.Ob("ring-walk", "ListKeys#lists-self-and-others", loop.Pos(), nself == 1 && nother == 1, fmt.Sprintf("one site adds the receiver, one adds the other nodes (found %d / %d)", nself, nother))
+}
+
+// tableRowsOf: e is `rv.field` where rv is the element variable of a `range` over a
+// package-level array/slice whose initialiser is a literal of struct literals; it returns the
+// row literals and rv.
+func tableRowsOf(c *Ctx, g *Fn, e ast.Expr) ([]*ast.CompositeLit, *types.Var) {
+	se, ok := ast.Unparen(e).(*ast.SelectorExpr)
+	if !ok {
+		return nil, nil
+	}
+	rv := g.varOf(se.X)
+	if rv == nil {
+		return nil, nil
+	}
+	var rows []*ast.CompositeLit
+	ast.Inspect(g.root().Body, func(n ast.Node) bool {
+		rs, ok := n.(*ast.RangeStmt)
+		if !ok || rs.Value == nil || g.varOf(rs.Value) != rv {
+			return true
+		}
+		gv, ok := g.ObjOf(rs.X).(*types.Var)
+		if !ok || gv.Pkg() == nil || gv.Parent() != gv.Pkg().Scope() {
+			return true
+		}
+		if lit := globalInit(c, gv); lit != nil {
+			for _, el := range lit.Elts {
+				if kv, ok := el.(*ast.KeyValueExpr); ok {
+					el = kv.Value
+				}
+				if cl, ok := ast.Unparen(el).(*ast.CompositeLit); ok {
+					rows = append(rows, cl)
+				}
+			}
+		}
+		return true
+	})
+	return rows, rv
+}
+
+// rowConst names the constant expression e denotes when the table's element variable rv
+// stands for the given row: a field of rv is looked up in the row (by key, or by position
+// against the struct type); anything else is an ordinary constant name.
+func rowConst(g *Fn, e ast.Expr, rv *types.Var, row *ast.CompositeLit) string {
+	se, ok := ast.Unparen(e).(*ast.SelectorExpr)
+	if !ok || rv == nil || g.varOf(se.X) != rv {
+		return constName(g, e)
+	}
+	st, ok := rv.Type().Underlying().(*types.Struct)
+	if !ok {
+		return ""
+	}
+	idx := -1
+	for i := 0; i < st.NumFields(); i++ {
+		if st.Field(i).Name() == se.Sel.Name {
+			idx = i
+		}
+	}
+	// the row literal lives in the package that declares the table
+	pf := g
+	for i, el := range row.Elts {
+		if kv, ok := el.(*ast.KeyValueExpr); ok {
+			if id, ok := kv.Key.(*ast.Ident); ok && id.Name == se.Sel.Name {
+				return constName(pf, kv.Value)
+			}
+			continue
+		}
+		if i == idx {
+			return constName(pf, el)
+		}
+	}
+	return ""
 }
